@@ -2,6 +2,8 @@ package main
 
 import (
 	"fmt"
+	"os"
+	"runtime/debug"
 	"go/ast"
 	"go/constant"
 	"go/token"
@@ -64,6 +66,7 @@ type Exec struct {
 	retSites int
 	iterMap map[*ssa.Range]Val
 	requiresPrefix int
+	noFacts bool
 	typeArgFn *ssa.Function
 	loopPreserve map[*loopInfo]map[string]int
 	refined *FuncContract
@@ -75,6 +78,10 @@ type Exec struct {
 type unsupported struct{ msg string }
 
 func (x *Exec) fail(f string, a ...any) {
+	if os.Getenv("GOVC_DEBUG") != "" {
+		fmt.Fprintf(os.Stderr, "FAIL: "+f+"\n", a...)
+		debug.PrintStack()
+	}
 	panic(unsupported{fmt.Sprintf(f, a...)})
 }
 
@@ -219,11 +226,7 @@ func (x *Exec) run() (err error) {
 	for name, srt := range x.localGhost {
 		k := "L:" + name
 		e.heapSort[k] = srt
-		init := "0"
-		if srt == "Bool" {
-			init = "false"
-		}
-		st.H[k] = init
+		st.H[k] = e.zeroSort(srt, nil)
 	}
 	// parameters
 	for i, p := range x.fn.Params {
@@ -260,7 +263,13 @@ func (x *Exec) run() (err error) {
 			binders := map[string]Val{}
 			for i, pn := range rc.Params {
 				if i < len(x.fn.Params) {
-					binders[pn] = x.vals[x.fn.Params[i]]
+					v := x.vals[x.fn.Params[i]]
+					if i == 0 && strings.HasPrefix(k, "iface:") {
+						// the interface value the method is invoked on holds this receiver
+						pt := x.fn.Params[0].Type()
+						v = Val{T: fmt.Sprintf("(mk-iface %d %s)", e.tagOf(pt), x.boxPayload(v, pt)), Sort: "Iface"}
+					}
+					binders[pn] = v
 				}
 			}
 			x.refBinders = binders
@@ -533,8 +542,15 @@ func (x *Exec) loopEntry(li *loopInfo, phiVal func(*ssa.Phi, func(*ssa.BasicBloc
 		for k, v := range keep {
 			x.st.H[k] = v
 		}
+		// keys the loop body itself writes are havoced without the locals exemption
+		for k, mode := range saved {
+			if mode == "any" && k != "brk" {
+				if _, kept := keep[k]; !kept {
+					e.heapHavoc(x.st, k)
+				}
+			}
+		}
 		mods = map[string]string{}
-		_ = saved
 	}
 	var keys []string
 	for k := range mods {
@@ -657,7 +673,20 @@ func (x *Exec) loopModset(li *loopInfo) map[string]string {
 					}
 				}
 				if x.fc != nil {
+					pats := x.callPatterns(c, c.StaticCallee())
 					for _, at := range x.fc.Ats {
+						if at.What != "call" {
+							continue
+						}
+						hit := false
+						for _, p := range pats {
+							if p == at.Pattern {
+								hit = true
+							}
+						}
+						if !hit {
+							continue
+						}
 						for _, u := range at.Updates {
 							add(x.ghostKey(u.Name), "any")
 						}
@@ -774,6 +803,7 @@ func (x *Exec) val(v ssa.Value) Val {
 		id := "fn!" + sanitize(shortName(c))
 		e.decl(fmt.Sprintf("(declare-const %s Int)", id))
 		e.decl(fmt.Sprintf("(assert (> %s 0))", id))
+		x.pureApply(c, id)
 		return Val{T: id, Sort: "Int", GT: c.Type()}
 	case *ssa.Builtin:
 		return Val{T: "0", Sort: "Int", GT: c.Type()}
@@ -1185,6 +1215,48 @@ func (x *Exec) unop(in *ssa.UnOp) {
 	}
 }
 
+// pureApply: for a capture-free function whose contract says `opt pure F` and
+// `ensures L: result == E(params)`, calling the function value is denoted by
+// the prelude function F(fnvalue, params...) and equals E (justified by the
+// function's own verified postcondition).
+func (x *Exec) pureApply(fn *ssa.Function, id string) {
+	e := x.enc
+	fc := e.cs.Funcs[shortName(fn)]
+	if fc == nil || fc.Opts["pure"] == "" || len(fn.FreeVars) > 0 {
+		return
+	}
+	f := fc.Opts["pure"]
+	sig, ok := e.funSig(f)
+	if !ok || len(sig.args) != len(fn.Params)+1 {
+		x.fail("pure: %s is not a prelude function of %d arguments", f, len(fn.Params)+1)
+	}
+	binders := map[string]Val{}
+	var qs, as []string
+	for i, p := range fn.Params {
+		vn := fmt.Sprintf("%s!q%d", p.Name(), 900+i)
+		s := e.sortOf(p.Type())
+		binders[p.Name()] = Val{T: vn, Sort: s, GT: p.Type()}
+		qs = append(qs, fmt.Sprintf("(%s %s)", vn, s))
+		as = append(as, vn)
+	}
+	app := fmt.Sprintf("(%s %s %s)", f, id, strings.Join(as, " "))
+	for _, c := range fc.Ensures {
+		b, ok := c.Expr.(*SBinary)
+		if !ok || b.Op != "==" {
+			continue
+		}
+		if l, ok := b.L.(*SIdent); !ok || l.Name != "result" {
+			continue
+		}
+		env := &Env{x: x, st: x.st, old: x.st, binders: binders, bound: map[string]Val{}, closed: true}
+		x.noFacts = true
+		rv := x.eval(b.R, env)
+		x.noFacts = false
+		e.decl(fmt.Sprintf("(assert (forall (%s) (! (= %s %s) :pattern (%s))))", strings.Join(qs, " "), app, rv.T, app))
+		e.assumptionsUsed["calling the comparator function value "+shortName(fn)+" equals its verified postcondition ("+f+")"] = true
+	}
+}
+
 // globalVal: package-level variables are treated as immutable constants.
 func (x *Exec) globalVal(g *ssa.Global) Val {
 	e := x.enc
@@ -1314,6 +1386,9 @@ func (x *Exec) frameCheck(key, ref string, p token.Pos) {
 		return
 	}
 	allowed = append(allowed, fmt.Sprintf("(>= %s %s)", ref, x.brk0))
+	if strings.HasPrefix(key, "M_") {
+		allowed = append(allowed, fmt.Sprintf("(= %s 0)", ref)) // the nil slice has no elements to write
+	}
 	x.oblige("frame", "write-"+key, x.frameTags(), len(x.frameTags()) == 0, or(allowed...), "write to "+key+" not covered by assigns", x.pos(p))
 }
 
@@ -1547,6 +1622,7 @@ func (x *Exec) makeClosure(in *ssa.MakeClosure) {
 				pt := deref(fv.Type())
 				l := x.locOf(in.Bindings[i])
 				binders[fv.Name()] = Val{T: e.load(x.st, l), Sort: e.sortOf(pt), GT: pt}
+				binders["&"+fv.Name()] = x.materialize(x.val(in.Bindings[i]))
 			}
 		}
 		caps := map[string]bool{}
